@@ -17,6 +17,7 @@ RULE = ("histories of 5-60 events over shared leaves (Parameters of one Module, 
         "Oracle: ledger of FD contributions; unreachable tensors byte-compared. distinct key = hash of the event-kind sequence with node roles; "
         "non-trivial = >= 2 backward events of which one starts at an interior or reused node, or a retained node is crossed twice")
 RULE += (' Added after the seeded rounds: exact power-of-two ledgers (float64 and float32 leaves, no tolerance) across all reset kinds; optimizers constructed while a leaf is frozen; zero-lr optimizer steps; poison-then-reset; deep copies of the module / a leaf taken mid-history and differentiated on their own.')
+RULE += (" Round 6 / reach monitor: two distinct parameters over one array (tied storage) in the exact-ledger histories; two resets in a row.")
 ASSUMPTIONS = ["true contribution of a backward call = FD derivative (Richardson, 1e-6 relative) of <g, node> as a function of the leaves, by fresh re-execution",
                "the value of a retained non-leaf's own .grad across several calls is not asserted (PyTorch accumulates, resetting would also satisfy the statement); only leaves are",
                "a leaf not reachable from the root of a call must be left exactly as it was (None stays None)"]
